@@ -201,6 +201,12 @@ func writeSTL(wg *sync.WaitGroup, path string) (chan<- []*sdf.Triangle3, error) 
 	go func() {
 		defer wg.Done()
 		defer f.Close()
+		// Keep reading until the channel is closed: if we return early on a write
+		// error the renderer would otherwise block forever on its next send.
+		defer func() {
+			for range c {
+			}
+		}()
 
 		var count uint32
 		var d STLTriangle
